@@ -332,7 +332,7 @@ def check(rep: Report, tier: str, seed: int) -> None:
             rep.extra.setdefault("seconds_per_config", []).append(round(_time.time() - t0, 1))
     fresh_stream_probe(rep, rng, seed, n_fresh=1 if tier == "quick" else 2)
     settle(rep, cx)
-    if rep.broken and not rep.failing:
+    if rep.broken and not rep.unknown_failing():
         search(rep, seed)
 
 
